@@ -202,8 +202,10 @@ impl RK23 {
             }
 
             // Check for last step adjustment
+            let mut last = false;
             if (x + h - xend) * posneg > 0.0 {
                 h = xend - x;
+                last = true;
             }
 
             // Stage 2
@@ -301,8 +303,8 @@ impl RK23 {
                     h = hmax * posneg;
                 }
 
-                // Normal exit
-                if x == xend {
+                // Normal exit (x + (xend - x) may miss xend by one ulp: the flag decides)
+                if last || x == xend {
                     break;
                 }
             } else {
